@@ -37,7 +37,9 @@ type C16Case struct {
 	PermA  []int  `json:"permA"` // permutation applied to KeysA's labels ++ attrs
 }
 
-var c16Vals = []cty.Value{cty.StringVal("aws"), cty.StringVal("az"), cty.StringVal("1"), cty.StringVal("true"), cty.NumberIntVal(1), cty.NumberIntVal(2), cty.True, cty.False}
+var c16Vals = []cty.Value{cty.StringVal("aws"), cty.StringVal("az"), cty.StringVal("1"), cty.StringVal("true"), cty.NumberIntVal(1), cty.NumberIntVal(2), cty.True, cty.False,
+	// numbers that differ below the resolution of a float64, and strings that differ in case / blanks only
+	cty.NumberIntVal(90071992547409920), cty.NumberIntVal(90071992547409921), cty.NumberIntVal(-90071992547409921), cty.StringVal("AWS"), cty.StringVal("aws ")}
 
 func c16KeyAttrCons(v cty.Value) m.ConsM {
 	return m.ConsM{K: "littype", Ty: m.TyOf(v.Type())}
